@@ -60,6 +60,17 @@ let rec mul n0 m =
   | O -> O
   | S p -> add m (mul p m)
 
+(** val eqb : nat -> nat -> bool **)
+
+let rec eqb n0 m =
+  match n0 with
+  | O -> (match m with
+          | O -> true
+          | S _ -> false)
+  | S n' -> (match m with
+             | O -> false
+             | S m' -> eqb n' m')
+
 type positive =
 | XI of positive
 | XO of positive
@@ -850,6 +861,19 @@ let rec map f = function
 | [] -> []
 | a :: t -> (f a) :: (map f t)
 
+(** val flat_map : ('a1 -> 'a2 list) -> 'a1 list -> 'a2 list **)
+
+let rec flat_map f = function
+| [] -> []
+| x :: t -> app (f x) (flat_map f t)
+
+(** val fold_left : ('a1 -> 'a2 -> 'a1) -> 'a2 list -> 'a1 -> 'a1 **)
+
+let rec fold_left f l a0 =
+  match l with
+  | [] -> a0
+  | b :: t -> fold_left f t (f a0 b)
+
 (** val forallb : ('a1 -> bool) -> 'a1 list -> bool **)
 
 let rec forallb f = function
@@ -861,6 +885,12 @@ let rec forallb f = function
 let rec filter f = function
 | [] -> []
 | x :: l0 -> if f x then x :: (filter f l0) else filter f l0
+
+(** val find : ('a1 -> bool) -> 'a1 list -> 'a1 option **)
+
+let rec find f = function
+| [] -> None
+| x :: tl -> if f x then Some x else find f tl
 
 (** val combine : 'a1 list -> 'a2 list -> ('a1 * 'a2) list **)
 
@@ -4395,6 +4425,11 @@ let rsw_select0 r i =
 let rsw_get r i =
   bv_get r.rsw_bv i
 
+(** val rsw_get_unchecked : rswide -> n -> bool outcome **)
+
+let rsw_get_unchecked r i =
+  bv_get_unchecked r.rsw_bv i
+
 type inventories = { inv_n_sets : n; inv_block : z list; inv_sub : n list;
                      inv_overflow : n list }
 
@@ -4590,3 +4625,948 @@ let da_from_positions s0 ps =
 
 let da_from_bools s0 bs =
   bind (bv_from_bools bs) (fun bv -> da_new s0 bv)
+
+type pcode = { pc_content : n; pc_len : n }
+
+(** val pc_zero : pcode **)
+
+let pc_zero =
+  { pc_content = N0; pc_len = N0 }
+
+(** val craft_expand : n -> n list -> n -> n -> n -> n list outcome **)
+
+let craft_expand frag c j l size0 =
+  bind
+    (if N.leb (Npos (XO (XO (XO (XO (XO XH)))))) l
+     then Fault Overflow
+     else Val ()) (fun _ ->
+    let pre = firstnN j c in
+    let act = skipnN j c in
+    let tag = fun k -> map (fun x -> N.coq_lor x (N.shiftl k l)) act in
+    let c' =
+      if N.eqb frag (Npos (XO XH))
+      then app pre
+             (app (tag (Npos (XI XH)))
+               (app (tag (Npos (XO XH))) (app (tag (Npos XH)) act)))
+      else app pre (app (tag (Npos XH)) act)
+    in
+    if N.leb (len c') size0 then Val c' else Fault Panic)
+
+(** val craft_grow :
+    n -> n list -> n -> n -> n -> n -> nat -> (n list * n) outcome **)
+
+let rec craft_grow frag c j l target size0 = function
+| O -> Fault OutOfFuel
+| S f ->
+  if N.ltb l target
+  then bind (craft_expand frag c j l size0) (fun c' ->
+         craft_grow frag c' j (N.add l frag) target size0 f)
+  else Val (c, l)
+
+(** val rev_frags : n -> n -> n -> n -> nat -> n **)
+
+let rec rev_frags frag x l t = function
+| O -> N0
+| S f ->
+  if N.ltb t l
+  then N.coq_lor
+         (N.shiftl
+           (N.coq_land (N.shiftr x t)
+             (N.sub (N.pow (Npos (XO XH)) frag) (Npos XH)))
+           (N.sub (N.sub l t) frag)) (rev_frags frag x l (N.add t frag) f)
+  else N0
+
+(** val craft_assign :
+    n -> (n * n) list -> n list -> n -> n -> n -> pcode list -> pcode list
+    outcome **)
+
+let rec craft_assign frag f c j l size0 table =
+  match f with
+  | [] -> Val table
+  | p :: rest ->
+    let (sym, target) = p in
+    bind
+      (craft_grow frag c j l target size0 (S (S (S (S (S (S (S (S (S (S (S (S
+        (S (S (S (S (S (S (S (S (S (S (S (S (S (S (S (S (S (S (S (S (S (S (S
+        (S (S (S (S (S O))))))))))))))))))))))))))))))))))))))))) (fun pat ->
+      let (c', l') = pat in
+      bind (idx c' j) (fun cj ->
+        let code = { pc_content =
+          (rev_frags frag cj l' N0 (S (S (S (S (S (S (S (S (S (S (S (S (S (S
+            (S (S (S (S (S (S (S (S (S (S (S (S (S (S (S (S (S (S (S (S (S (S
+            (S (S (S (S O))))))))))))))))))))))))))))))))))))))))); pc_len =
+          l' }
+        in
+        bind (if N.ltb sym (len table) then Val () else Fault Panic)
+          (fun _ ->
+          craft_assign frag rest c' (N.add j (Npos XH)) l' size0
+            (setN table sym code))))
+
+(** val craft_wm_codes : n -> (n * n) list -> n -> n -> pcode list outcome **)
+
+let craft_wm_codes frag f sigma scratch =
+  craft_assign frag f (N0 :: []) N0 N0 scratch
+    (repeat pc_zero (N.to_nat (N.add sigma (Npos XH))))
+
+(** val craft4 : (n * n) list -> n -> pcode list outcome **)
+
+let craft4 f sigma =
+  craft_wm_codes (Npos (XO XH)) f sigma (N.mul (len f) (Npos (XO (XO XH))))
+
+(** val craft2 : (n * n) list -> n -> pcode list outcome **)
+
+let craft2 f sigma =
+  craft_wm_codes (Npos XH) f sigma (N.max (len f) (Npos (XO XH)))
+
+(** val insert_sorted : (n * n) -> (n * n) list -> (n * n) list **)
+
+let rec insert_sorted x l = match l with
+| [] -> x :: []
+| y :: r -> if N.ltb (fst x) (fst y) then x :: l else y :: (insert_sorted x r)
+
+(** val sort_by_key : (n * n) list -> (n * n) list **)
+
+let sort_by_key l =
+  fold_left (fun acc x -> insert_sorted x acc) l []
+
+(** val decode_tables : pcode list -> n -> (n * n) list list **)
+
+let decode_tables codes max_len =
+  map (fun ln ->
+    sort_by_key
+      (map (fun pat -> let (i, c) = pat in (c.pc_content, i))
+        (filter (fun pat ->
+          let (_, c) = pat in
+          (&&) (negb (N.eqb c.pc_len N0)) (N.eqb c.pc_len ln))
+          (number_levels codes N0)))) (seqN N0 (S (N.to_nat max_len)))
+
+(** val table_lookup : (n * n) list -> n -> n outcome **)
+
+let table_lookup t key =
+  match find (fun p -> N.eqb (fst p) key) t with
+  | Some p -> Val (snd p)
+  | None -> Fault Panic
+
+type hqwt = { h_n : n; h_n_levels : n; h_codes : pcode list;
+              h_decode : (n * n) list list; h_qvs : rsq list; h_lens : 
+              n list }
+
+(** val sym_index : n -> n **)
+
+let sym_index x =
+  N.modulo x (N.pow (Npos (XO XH)) (Npos (XO (XO (XO (XO (XO (XO XH))))))))
+
+(** val part_with_codes : n -> n list -> n -> pcode list -> n list outcome **)
+
+let part_with_codes nbuckets seq shift codes =
+  bind
+    (mapo (fun a ->
+      bind (idx codes (sym_index a)) (fun code ->
+        if N.leb code.pc_len shift
+        then Val (nbuckets, a)
+        else bind (osub code.pc_len shift) (fun d -> Val
+               ((N.coq_land (N.shiftr code.pc_content d)
+                  (N.sub nbuckets (Npos XH))), a)))) seq) (fun tagged ->
+    let pick = fun d -> map snd (filter (fun p -> N.eqb (fst p) d) tagged) in
+    Val
+    (if N.eqb nbuckets (Npos (XO (XO XH)))
+     then app (pick N0)
+            (app (pick (Npos XH))
+              (app (pick (Npos (XO XH)))
+                (app (pick (Npos (XI XH))) (pick (Npos (XO (XO XH)))))))
+     else app (pick N0) (app (pick (Npos XH)) (pick (Npos (XO XH))))))
+
+(** val hq_levels :
+    n -> n list -> pcode list -> n -> nat -> (rsq list * n list) outcome **)
+
+let rec hq_levels bsize seq codes shift = function
+| O -> Val ([], [])
+| S k ->
+  bind
+    (mapo (fun s ->
+      bind (idx codes (sym_index s)) (fun code ->
+        if N.leb shift code.pc_len
+        then Val (Some
+               (N.coq_land
+                 (N.shiftr code.pc_content (N.sub code.pc_len shift)) (Npos
+                 (XI XH))))
+        else Val None)) seq) (fun ds ->
+    let digits =
+      flat_map (fun o -> match o with
+                         | Some d -> d :: []
+                         | None -> []) ds
+    in
+    bind (qvb_push_all qvb_new digits) (fun qv ->
+      bind (rsq_from_qv bsize qv) (fun rs ->
+        bind (part_with_codes (Npos (XO (XO XH))) seq shift codes)
+          (fun seq' ->
+          bind (hq_levels bsize seq' codes (N.add shift (Npos (XO XH))) k)
+            (fun pat ->
+            let (rest, lens) = pat in
+            Val ((rs :: rest), ((qv_len qv) :: lens)))))))
+
+(** val hq_build : n -> n list -> pcode list -> hqwt outcome **)
+
+let hq_build bsize seq codes =
+  match seq with
+  | [] ->
+    bind (rsq_default bsize) (fun d -> Val { h_n = N0; h_n_levels = N0;
+      h_codes = []; h_decode = []; h_qvs = (d :: []); h_lens = (N0 :: []) })
+  | _ :: _ ->
+    let max_len = maxN (map (fun p -> p.pc_len) codes) in
+    let n_levels = N.div max_len (Npos (XO XH)) in
+    bind (hq_levels bsize seq codes (Npos (XO XH)) (N.to_nat n_levels))
+      (fun pat ->
+      let (qvs, lens) = pat in
+      Val { h_n = (len seq); h_n_levels = n_levels; h_codes = codes;
+      h_decode = (decode_tables codes max_len); h_qvs = qvs; h_lens = lens })
+
+(** val hq_new : n -> n list -> (n * n) list -> hqwt outcome **)
+
+let hq_new bsize seq f =
+  match seq with
+  | [] -> hq_build bsize [] []
+  | _ :: _ ->
+    bind (craft4 f (sym_index (maxN seq))) (fun codes ->
+      hq_build bsize seq codes)
+
+(** val hq_len : hqwt -> n **)
+
+let hq_len t =
+  t.h_n
+
+(** val hq_get_walk :
+    n -> hqwt -> n -> n -> n -> n -> nat -> (n * n) outcome **)
+
+let rec hq_get_walk bsize t cur_i result shift level = function
+| O -> Val (result, shift)
+| S k ->
+  bind (idx t.h_lens level) (fun ln ->
+    if N.leb ln cur_i
+    then Val (result, shift)
+    else bind (idx t.h_qvs level) (fun qv ->
+           bind (rsq_get_unchecked qv cur_i) (fun symbol ->
+             let result' =
+               N.coq_lor
+                 (N.modulo (N.shiftl result (Npos (XO XH)))
+                   (N.pow (Npos (XO XH)) (Npos (XO (XO (XO (XO (XO XH))))))))
+                 symbol
+             in
+             bind (rsq_occs_smaller_unchecked qv symbol) (fun offset ->
+               bind (rsq_rank_unchecked bsize qv symbol cur_i) (fun r ->
+                 hq_get_walk bsize t (N.add r offset) result'
+                   (N.add shift (Npos (XO XH))) (N.add level (Npos XH)) k)))))
+
+(** val hq_get_unchecked : n -> n -> hqwt -> n -> n outcome **)
+
+let hq_get_unchecked w bsize t i =
+  bind (hq_get_walk bsize t i N0 N0 N0 (N.to_nat t.h_n_levels)) (fun pat ->
+    let (result, shift) = pat in
+    bind (idx t.h_decode shift) (fun tab ->
+      bind (table_lookup tab result) (fun s ->
+        if N.ltb s (N.pow (Npos (XO XH)) w) then Val s else Fault Panic)))
+
+(** val hq_get : n -> n -> hqwt -> n -> n option outcome **)
+
+let hq_get w bsize t i =
+  if N.leb t.h_n i
+  then Val None
+  else bind (hq_get_unchecked w bsize t i) (fun v -> Val (Some v))
+
+(** val hq_code_of : hqwt -> n -> pcode option **)
+
+let hq_code_of t symbol =
+  if (||) (negb (N.eqb (sym_index symbol) symbol))
+       (N.leb (len t.h_codes) (sym_index symbol))
+  then None
+  else (match nthN t.h_codes (sym_index symbol) with
+        | Some c -> if N.eqb c.pc_len N0 then None else Some c
+        | None -> None)
+
+(** val hq_rank_walk :
+    n -> rsq list -> n -> n -> n -> n -> n -> nat -> (n * n) outcome **)
+
+let rec hq_rank_walk bsize qvs repr shift cur_p cur_i level = function
+| O -> Val (cur_p, cur_i)
+| S k ->
+  let tb = N.coq_land (N.shiftr repr shift) (Npos (XI XH)) in
+  bind (idx qvs level) (fun qv ->
+    bind (rsq_occs_smaller_unchecked qv tb) (fun offset ->
+      bind (rsq_rank_unchecked bsize qv tb cur_p) (fun rp ->
+        bind (rsq_rank_unchecked bsize qv tb cur_i) (fun ri ->
+          hq_rank_walk bsize qvs repr (N.sub shift (Npos (XO XH)))
+            (N.add rp offset) (N.add ri offset) (N.add level (Npos XH)) k))))
+
+(** val hq_rank_unchecked : n -> hqwt -> n -> n -> n outcome **)
+
+let hq_rank_unchecked bsize t symbol i =
+  bind (idx t.h_codes (sym_index symbol)) (fun code ->
+    let iters = N.to_nat (N.div code.pc_len (Npos (XO XH))) in
+    bind
+      (hq_rank_walk bsize t.h_qvs code.pc_content
+        (N.sub code.pc_len (Npos (XO XH))) N0 i N0 iters) (fun pat ->
+      let (cur_p, cur_i) = pat in osub cur_i cur_p))
+
+(** val hq_rank : n -> hqwt -> n -> n -> n option outcome **)
+
+let hq_rank bsize t symbol i =
+  if N.ltb t.h_n i
+  then Val None
+  else (match hq_code_of t symbol with
+        | Some _ ->
+          bind (hq_rank_unchecked bsize t symbol i) (fun v -> Val (Some v))
+        | None -> Val None)
+
+(** val hq_select_down :
+    n -> rsq list -> n -> n -> n -> n -> nat -> (n * n) list option outcome **)
+
+let rec hq_select_down bsize qvs repr shift b level = function
+| O -> Val (Some [])
+| S k ->
+  let tb = N.coq_land (N.shiftr repr shift) (Npos (XI XH)) in
+  bind (idx qvs level) (fun qv ->
+    bind (rsq_rank bsize qv tb b) (fun r ->
+      match r with
+      | Some rank_b ->
+        bind (rsq_occs_smaller_unchecked qv tb) (fun offset ->
+          bind
+            (hq_select_down bsize qvs repr (N.sub shift (Npos (XO XH)))
+              (N.add rank_b offset) (N.add level (Npos XH)) k) (fun rest ->
+            match rest with
+            | Some l -> Val (Some ((b, rank_b) :: l))
+            | None -> Val None))
+      | None -> Val None))
+
+(** val hq_select_up :
+    n -> rsq list -> n -> n -> n -> ((n * n) * n) list -> n option outcome **)
+
+let rec hq_select_up bsize qvs repr shift result = function
+| [] -> Val (Some result)
+| p :: rest ->
+  let (p0, rank_b) = p in
+  let (level, b) = p0 in
+  let tb = N.coq_land (N.shiftr repr shift) (Npos (XI XH)) in
+  bind (idx qvs level) (fun qv ->
+    if N.leb (N.pow (Npos (XO XH)) (Npos (XO (XO (XO (XO (XO (XO XH))))))))
+         (N.add rank_b result)
+    then Val None
+    else bind (rsq_select bsize qv tb (N.add rank_b result)) (fun s ->
+           match s with
+           | Some p1 ->
+             bind (osub p1 b) (fun r' ->
+               hq_select_up bsize qvs repr (N.add shift (Npos (XO XH))) r'
+                 rest)
+           | None -> Val None))
+
+(** val hq_select : n -> hqwt -> n -> n -> n option outcome **)
+
+let hq_select bsize t symbol i =
+  match hq_code_of t symbol with
+  | Some code ->
+    let iters = N.to_nat (N.div code.pc_len (Npos (XO XH))) in
+    bind
+      (hq_select_down bsize t.h_qvs code.pc_content
+        (N.sub code.pc_len (Npos (XO XH))) N0 N0 iters) (fun down ->
+      match down with
+      | Some path ->
+        let numbered =
+          map (fun pat ->
+            let (lv, y) = pat in let (b, rb) = y in ((lv, b), rb))
+            (number_levels path N0)
+        in
+        hq_select_up bsize t.h_qvs code.pc_content N0 i (rev numbered)
+      | None -> Val None)
+  | None -> Val None
+
+(** val hq_select_unchecked : n -> hqwt -> n -> n -> n outcome **)
+
+let hq_select_unchecked bsize t symbol i =
+  bind (hq_select bsize t symbol i) ounwrap
+
+(** val hq_estimate_walk :
+    n -> rsq list -> n -> n -> n -> n -> n -> nat -> unit outcome **)
+
+let rec hq_estimate_walk bsize qvs repr shift rs re level = function
+| O -> Val ()
+| S k ->
+  let tb = N.coq_land (N.shiftr repr shift) (Npos (XI XH)) in
+  bind (idx qvs level) (fun qv ->
+    bind (rsq_occs_smaller_unchecked qv tb) (fun offset ->
+      bind (rss_rank_block bsize qv.rsq_rs tb rs) (fun a ->
+        bind (rss_rank_block bsize qv.rsq_rs tb re) (fun b ->
+          bind (idx qvs (N.add level (Npos XH))) (fun _ ->
+            hq_estimate_walk bsize qvs repr (N.sub shift (Npos (XO XH)))
+              (N.add a offset) (N.add b offset) (N.add level (Npos XH)) k)))))
+
+(** val hq_rank_prefetch_unchecked : n -> hqwt -> n -> n -> n outcome **)
+
+let hq_rank_prefetch_unchecked bsize t symbol i =
+  bind (idx t.h_codes (sym_index symbol)) (fun code ->
+    bind (idx t.h_qvs N0) (fun _ ->
+      bind
+        (hq_estimate_walk bsize t.h_qvs code.pc_content
+          (N.sub code.pc_len (Npos (XO XH))) N0 i N0
+          (N.to_nat (N.sub (N.div code.pc_len (Npos (XO XH))) (Npos XH))))
+        (fun _ -> hq_rank_unchecked bsize t symbol i)))
+
+(** val hq_rank_prefetch : n -> hqwt -> n -> n -> n option outcome **)
+
+let hq_rank_prefetch bsize t symbol i =
+  if N.ltb t.h_n i
+  then Val None
+  else (match hq_code_of t symbol with
+        | Some _ ->
+          bind (hq_rank_prefetch_unchecked bsize t symbol i) (fun v -> Val
+            (Some v))
+        | None -> Val None)
+
+type bwt = { w_n : n; w_n_levels : n; w_sigma : n option;
+             w_codes : pcode list option;
+             w_decode : (n * n) list list option; w_bvs : rswide list;
+             w_lens : n list }
+
+(** val one_bit : n -> n -> n -> n outcome **)
+
+let one_bit w x shift =
+  bind (oshr w x shift) (fun y -> Val
+    (N.coq_land
+      (N.modulo y
+        (N.pow (Npos (XO XH)) (Npos (XO (XO (XO (XO (XO (XO XH))))))))) (Npos
+      XH)))
+
+(** val stable_partition_of_2 : n -> n list -> n -> n list outcome **)
+
+let stable_partition_of_2 w seq shift =
+  bind (mapo (fun a -> one_bit w a shift) seq) (fun ds ->
+    let tagged = combine ds seq in
+    let pick = fun d -> map snd (filter (fun p -> N.eqb (fst p) d) tagged) in
+    Val (app (pick N0) (pick (Npos XH))))
+
+(** val wt_levels :
+    n -> bool -> n list -> pcode list -> n -> n -> nat -> (rswide list * n
+    list) outcome **)
+
+let rec wt_levels w compressed seq codes n_levels shift = function
+| O -> Val ([], [])
+| S k ->
+  bind
+    (mapo (fun s ->
+      if compressed
+      then bind (idx codes (sym_index s)) (fun code ->
+             if N.leb shift code.pc_len
+             then Val (Some
+                    (N.eqb
+                      (N.coq_land
+                        (N.shiftr code.pc_content (N.sub code.pc_len shift))
+                        (Npos XH)) (Npos XH)))
+             else Val None)
+      else bind (osub n_levels shift) (fun sh ->
+             bind (one_bit w s sh) (fun b -> Val (Some (N.eqb b (Npos XH))))))
+      seq) (fun bs ->
+    let bits =
+      flat_map (fun o -> match o with
+                         | Some d -> d :: []
+                         | None -> []) bs
+    in
+    bind (bv_from_bools bits) (fun bv ->
+      bind (rsw_new bv) (fun rs ->
+        bind
+          (if compressed
+           then part_with_codes (Npos (XO XH)) seq shift codes
+           else bind (osub n_levels shift) (fun sh ->
+                  stable_partition_of_2 w seq sh)) (fun seq' ->
+          bind
+            (wt_levels w compressed seq' codes n_levels
+              (N.add shift (Npos XH)) k) (fun pat ->
+            let (rest, lens) = pat in
+            Val ((rs :: rest), ((bv_len bv) :: lens)))))))
+
+(** val wt_build : n -> bool -> n list -> pcode list -> bwt outcome **)
+
+let wt_build w compressed seq codes =
+  match seq with
+  | [] ->
+    Val { w_n = N0; w_n_levels = N0; w_sigma = None; w_codes = None;
+      w_decode = None; w_bvs = []; w_lens = [] }
+  | _ :: _ ->
+    let sigma = maxN seq in
+    if compressed
+    then let max_len = maxN (map (fun p -> p.pc_len) codes) in
+         bind
+           (wt_levels w true seq codes max_len (Npos XH) (N.to_nat max_len))
+           (fun pat ->
+           let (bvs, lens) = pat in
+           Val { w_n = (len seq); w_n_levels = max_len; w_sigma = None;
+           w_codes = (Some codes); w_decode = (Some
+           (decode_tables codes max_len)); w_bvs = bvs; w_lens = lens })
+    else let n_levels = N.add (msb sigma) (Npos XH) in
+         bind
+           (wt_levels w false seq [] n_levels (Npos XH) (N.to_nat n_levels))
+           (fun pat ->
+           let (bvs, lens) = pat in
+           Val { w_n = (len seq); w_n_levels = n_levels; w_sigma = (Some
+           sigma); w_codes = None; w_decode = None; w_bvs = bvs; w_lens =
+           lens })
+
+(** val hwt_new : n -> n list -> (n * n) list -> bwt outcome **)
+
+let hwt_new w seq f =
+  match seq with
+  | [] -> wt_build w true [] []
+  | _ :: _ ->
+    bind (craft2 f (sym_index (maxN seq))) (fun codes ->
+      wt_build w true seq codes)
+
+(** val wt_bit_at : n -> bool -> n -> n -> n -> n -> bool outcome **)
+
+let wt_bit_at w compressed symbol repr symbol_len level =
+  bind (osub symbol_len (N.add level (Npos XH))) (fun sh ->
+    if compressed
+    then bind (oshr (Npos (XO (XO (XO (XO (XO XH)))))) repr sh) (fun y -> Val
+           (N.eqb (N.coq_land y (Npos XH)) (Npos XH)))
+    else bind (one_bit w symbol sh) (fun b -> Val (N.eqb b (Npos XH))))
+
+(** val wt_get_walk :
+    bool -> bwt -> n -> n -> n -> n -> n -> n -> nat -> ((n * n) * n) outcome **)
+
+let rec wt_get_walk compressed t cur_i result result_t shift level w = function
+| O -> Val ((result, result_t), shift)
+| S k ->
+  bind
+    (if compressed
+     then bind (idx t.w_lens level) (fun ln -> Val (N.leb ln cur_i))
+     else Val false) (fun stop ->
+    if stop
+    then Val ((result, result_t), shift)
+    else bind (idx t.w_bvs level) (fun bv ->
+           bind (rsw_get_unchecked bv cur_i) (fun symbol ->
+             let sb = if symbol then Npos XH else N0 in
+             let result' =
+               if compressed
+               then N.coq_lor
+                      (N.modulo (N.shiftl result (Npos XH))
+                        (N.pow (Npos (XO XH)) (Npos (XO (XO (XO (XO (XO
+                          XH)))))))) sb
+               else result
+             in
+             let result_t' =
+               if compressed
+               then result_t
+               else N.coq_lor
+                      (N.modulo (N.shiftl result_t (Npos XH))
+                        (N.pow (Npos (XO XH)) w)) sb
+             in
+             bind (rsw_rank1_unchecked bv cur_i) (fun tmp ->
+               bind
+                 (if symbol
+                  then Val (N.add tmp (rsw_n_zeros_q bv))
+                  else osub cur_i tmp) (fun cur_i' ->
+                 wt_get_walk compressed t cur_i' result' result_t'
+                   (N.add shift (Npos XH)) (N.add level (Npos XH)) w k)))))
+
+(** val wt_get_unchecked : n -> bool -> bwt -> n -> n outcome **)
+
+let wt_get_unchecked w compressed t i =
+  bind (wt_get_walk compressed t i N0 N0 N0 N0 w (N.to_nat t.w_n_levels))
+    (fun pat ->
+    let (p, shift) = pat in
+    let (result, result_t) = p in
+    if compressed
+    then bind (ounwrap t.w_decode) (fun dec ->
+           bind (idx dec shift) (fun tab ->
+             bind (table_lookup tab result) (fun s ->
+               if N.ltb s (N.pow (Npos (XO XH)) w) then Val s else Fault Panic)))
+    else Val result_t)
+
+(** val wt_get : n -> bool -> bwt -> n -> n option outcome **)
+
+let wt_get w compressed t i =
+  if N.leb t.w_n i
+  then Val None
+  else bind (wt_get_unchecked w compressed t i) (fun v -> Val (Some v))
+
+(** val wt_valid : bool -> bwt -> n -> (n * n) option outcome **)
+
+let wt_valid compressed t symbol =
+  if compressed
+  then bind (ounwrap t.w_codes) (fun codes ->
+         if (||) (negb (N.eqb (sym_index symbol) symbol))
+              (N.leb (len codes) (sym_index symbol))
+         then Val None
+         else bind (idx codes (sym_index symbol)) (fun c ->
+                if N.eqb c.pc_len N0
+                then Val None
+                else Val (Some (c.pc_content, c.pc_len))))
+  else bind (ounwrap t.w_sigma) (fun sg ->
+         if N.ltb sg symbol then Val None else Val (Some (N0, t.w_n_levels)))
+
+(** val wt_rank_walk :
+    n -> bool -> rswide list -> n -> n -> n -> n -> n -> n -> nat -> (n * n)
+    outcome **)
+
+let rec wt_rank_walk w compressed bvs symbol repr symbol_len cur_p cur_i level = function
+| O -> Val (cur_p, cur_i)
+| S k ->
+  bind (wt_bit_at w compressed symbol repr symbol_len level) (fun bit ->
+    bind (idx bvs level) (fun bv ->
+      let offset = rsw_n_zeros_q bv in
+      bind (rsw_rank1_unchecked bv cur_p) (fun tmp_p ->
+        bind (rsw_rank1_unchecked bv cur_i) (fun tmp_i ->
+          bind (if bit then Val (N.add tmp_p offset) else osub cur_p tmp_p)
+            (fun cp ->
+            bind (if bit then Val (N.add tmp_i offset) else osub cur_i tmp_i)
+              (fun ci ->
+              wt_rank_walk w compressed bvs symbol repr symbol_len cp ci
+                (N.add level (Npos XH)) k))))))
+
+(** val wt_rank_unchecked : n -> bool -> bwt -> n -> n -> n outcome **)
+
+let wt_rank_unchecked w compressed t symbol i =
+  bind
+    (if compressed
+     then bind (ounwrap t.w_codes) (fun codes ->
+            bind (idx codes (sym_index symbol)) (fun c -> Val (c.pc_content,
+              c.pc_len)))
+     else Val (N0, t.w_n_levels)) (fun pat ->
+    let (repr, symbol_len) = pat in
+    bind
+      (wt_rank_walk w compressed t.w_bvs symbol repr symbol_len N0 i N0
+        (N.to_nat symbol_len)) (fun pat0 -> let (cp, ci) = pat0 in osub ci cp))
+
+(** val wt_rank : n -> bool -> bwt -> n -> n -> n option outcome **)
+
+let wt_rank w compressed t symbol i =
+  if (||) (N.eqb t.w_n N0) (N.ltb t.w_n i)
+  then Val None
+  else bind (wt_valid compressed t symbol) (fun v ->
+         match v with
+         | Some _ ->
+           bind (wt_rank_unchecked w compressed t symbol i) (fun r -> Val
+             (Some r))
+         | None -> Val None)
+
+(** val wt_select_down :
+    n -> bool -> rswide list -> n -> n -> n -> n -> n -> nat -> (n * n) list
+    option outcome **)
+
+let rec wt_select_down w compressed bvs symbol repr symbol_len b level = function
+| O -> Val (Some [])
+| S k ->
+  bind (wt_bit_at w compressed symbol repr symbol_len level) (fun bit ->
+    bind (idx bvs level) (fun bv ->
+      bind (if bit then rsw_rank1 bv b else rsw_rank0 bv b) (fun r ->
+        match r with
+        | Some rank_b ->
+          let b' = N.add rank_b (if bit then rsw_n_zeros_q bv else N0) in
+          bind
+            (wt_select_down w compressed bvs symbol repr symbol_len b'
+              (N.add level (Npos XH)) k) (fun rest ->
+            match rest with
+            | Some l -> Val (Some ((b, rank_b) :: l))
+            | None -> Val None)
+        | None -> Val None)))
+
+(** val wt_select_up :
+    n -> bool -> rswide list -> n -> n -> n -> n -> ((n * n) * n) list -> n
+    option outcome **)
+
+let rec wt_select_up w compressed bvs symbol repr symbol_len result = function
+| [] -> Val (Some result)
+| p :: rest ->
+  let (p0, rank_b) = p in
+  let (level, b) = p0 in
+  bind (wt_bit_at w compressed symbol repr symbol_len level) (fun bit ->
+    bind (idx bvs level) (fun bv ->
+      if N.leb (N.pow (Npos (XO XH)) (Npos (XO (XO (XO (XO (XO (XO XH))))))))
+           (N.add rank_b result)
+      then Val None
+      else bind
+             (if bit
+              then rsw_select1 bv (N.add rank_b result)
+              else rsw_select0 bv (N.add rank_b result)) (fun s ->
+             match s with
+             | Some p1 ->
+               bind (osub p1 b) (fun r' ->
+                 wt_select_up w compressed bvs symbol repr symbol_len r' rest)
+             | None -> Val None)))
+
+(** val wt_select : n -> bool -> bwt -> n -> n -> n option outcome **)
+
+let wt_select w compressed t symbol i =
+  if N.eqb t.w_n N0
+  then Val None
+  else bind (wt_valid compressed t symbol) (fun v ->
+         match v with
+         | Some p ->
+           let (repr, symbol_len) = p in
+           bind
+             (wt_select_down w compressed t.w_bvs symbol repr symbol_len N0
+               N0 (N.to_nat symbol_len)) (fun down ->
+             match down with
+             | Some path ->
+               let numbered =
+                 map (fun pat ->
+                   let (lv, y) = pat in let (b, rb) = y in ((lv, b), rb))
+                   (number_levels path N0)
+               in
+               wt_select_up w compressed t.w_bvs symbol repr symbol_len i
+                 (rev numbered)
+             | None -> Val None)
+         | None -> Val None)
+
+(** val wt_select_unchecked : n -> bool -> bwt -> n -> n -> n outcome **)
+
+let wt_select_unchecked w compressed t symbol i =
+  bind (wt_select w compressed t symbol i) ounwrap
+
+type ty =
+| TU of nat
+| TBool
+| TSeq of ty
+| TArr of nat * ty
+| TOpt of ty
+| TTuple of ty list
+| TUnit
+
+type value =
+| VU of n
+| VBool of bool
+| VSeq of value list
+| VOpt of value option
+| VTuple of value list
+| VUnit
+
+(** val le_bytes : nat -> n -> n list **)
+
+let rec le_bytes n0 x =
+  match n0 with
+  | O -> []
+  | S n' ->
+    (N.modulo x (Npos (XO (XO (XO (XO (XO (XO (XO (XO XH)))))))))) :: 
+      (le_bytes n'
+        (N.div x (Npos (XO (XO (XO (XO (XO (XO (XO (XO XH)))))))))))
+
+(** val le_value : n list -> n **)
+
+let rec le_value = function
+| [] -> N0
+| b :: bs' ->
+  N.add b
+    (N.mul (Npos (XO (XO (XO (XO (XO (XO (XO (XO XH))))))))) (le_value bs'))
+
+(** val take_bytes : nat -> n list -> (n list * n list) option **)
+
+let rec take_bytes n0 bs =
+  match n0 with
+  | O -> Some ([], bs)
+  | S n' ->
+    (match bs with
+     | [] -> None
+     | b :: bs' ->
+       if N.ltb b (Npos (XO (XO (XO (XO (XO (XO (XO (XO XH)))))))))
+       then (match take_bytes n' bs' with
+             | Some p -> let (a, r) = p in Some ((b :: a), r)
+             | None -> None)
+       else None)
+
+(** val dec_nat :
+    (n list -> ('a1 * n list) option) -> nat -> n list -> ('a1 list * n list)
+    option **)
+
+let rec dec_nat f n0 bs =
+  match n0 with
+  | O -> Some ([], bs)
+  | S n' ->
+    (match f bs with
+     | Some p ->
+       let (v, r) = p in
+       (match dec_nat f n' r with
+        | Some p0 -> let (vs, r') = p0 in Some ((v :: vs), r')
+        | None -> None)
+     | None -> None)
+
+(** val dec_pos :
+    (n list -> ('a1 * n list) option) -> positive -> n list -> ('a1 list * n
+    list) option **)
+
+let rec dec_pos f p bs =
+  match p with
+  | XI p' ->
+    (match f bs with
+     | Some p0 ->
+       let (v, r) = p0 in
+       (match dec_pos f p' r with
+        | Some p1 ->
+          let (vs1, r1) = p1 in
+          (match dec_pos f p' r1 with
+           | Some p2 -> let (vs2, r2) = p2 in Some ((v :: (app vs1 vs2)), r2)
+           | None -> None)
+        | None -> None)
+     | None -> None)
+  | XO p' ->
+    (match dec_pos f p' bs with
+     | Some p0 ->
+       let (vs1, r1) = p0 in
+       (match dec_pos f p' r1 with
+        | Some p1 -> let (vs2, r2) = p1 in Some ((app vs1 vs2), r2)
+        | None -> None)
+     | None -> None)
+  | XH ->
+    (match f bs with
+     | Some p0 -> let (v, r) = p0 in Some ((v :: []), r)
+     | None -> None)
+
+(** val dec_N :
+    (n list -> ('a1 * n list) option) -> n -> n list -> ('a1 list * n list)
+    option **)
+
+let dec_N f c bs =
+  match c with
+  | N0 -> Some ([], bs)
+  | Npos p -> dec_pos f p bs
+
+(** val wt : ty -> value -> bool **)
+
+let rec wt t v =
+  match t with
+  | TU n0 ->
+    (match v with
+     | VU x ->
+       N.ltb x
+         (N.pow (Npos (XO XH)) (N.mul (Npos (XO (XO (XO XH)))) (N.of_nat n0)))
+     | _ -> false)
+  | TBool -> (match v with
+              | VBool _ -> true
+              | _ -> false)
+  | TSeq t' ->
+    (match v with
+     | VSeq vs ->
+       (&&)
+         (N.ltb (len vs)
+           (N.pow (Npos (XO XH)) (Npos (XO (XO (XO (XO (XO (XO XH)))))))))
+         (forallb (wt t') vs)
+     | _ -> false)
+  | TArr (n0, t') ->
+    (match v with
+     | VSeq vs -> (&&) (eqb (length vs) n0) (forallb (wt t') vs)
+     | _ -> false)
+  | TOpt t' ->
+    (match v with
+     | VOpt o -> (match o with
+                  | Some v' -> wt t' v'
+                  | None -> true)
+     | _ -> false)
+  | TTuple ts ->
+    (match v with
+     | VTuple vs ->
+       let rec go ts0 vs0 =
+         match ts0 with
+         | [] -> (match vs0 with
+                  | [] -> true
+                  | _ :: _ -> false)
+         | t1 :: ts' ->
+           (match vs0 with
+            | [] -> false
+            | v1 :: vs' -> (&&) (wt t1 v1) (go ts' vs'))
+       in go ts vs
+     | _ -> false)
+  | TUnit -> (match v with
+              | VUnit -> true
+              | _ -> false)
+
+(** val encode : ty -> value -> n list **)
+
+let rec encode t v =
+  match t with
+  | TU n0 -> (match v with
+              | VU x -> le_bytes n0 x
+              | _ -> [])
+  | TBool ->
+    (match v with
+     | VBool b -> (if b then Npos XH else N0) :: []
+     | _ -> [])
+  | TSeq t' ->
+    (match v with
+     | VSeq vs ->
+       app (le_bytes (S (S (S (S (S (S (S (S O)))))))) (len vs))
+         (flat_map (encode t') vs)
+     | _ -> [])
+  | TArr (_, t') ->
+    (match v with
+     | VSeq vs -> flat_map (encode t') vs
+     | _ -> [])
+  | TOpt t' ->
+    (match v with
+     | VOpt o ->
+       (match o with
+        | Some v' -> (Npos XH) :: (encode t' v')
+        | None -> N0 :: [])
+     | _ -> [])
+  | TTuple ts ->
+    (match v with
+     | VTuple vs ->
+       let rec go ts0 vs0 =
+         match ts0 with
+         | [] -> []
+         | t1 :: ts' ->
+           (match vs0 with
+            | [] -> []
+            | v1 :: vs' -> app (encode t1 v1) (go ts' vs'))
+       in go ts vs
+     | _ -> [])
+  | TUnit -> []
+
+(** val decode : ty -> n list -> (value * n list) option **)
+
+let rec decode t bs =
+  match t with
+  | TU n0 ->
+    (match take_bytes n0 bs with
+     | Some p -> let (a, r) = p in Some ((VU (le_value a)), r)
+     | None -> None)
+  | TBool ->
+    (match bs with
+     | [] -> None
+     | b :: r ->
+       if N.eqb b N0
+       then Some ((VBool false), r)
+       else if N.eqb b (Npos XH) then Some ((VBool true), r) else None)
+  | TSeq t' ->
+    (match take_bytes (S (S (S (S (S (S (S (S O)))))))) bs with
+     | Some p ->
+       let (a, r) = p in
+       (match dec_N (decode t') (le_value a) r with
+        | Some p0 -> let (vs, r') = p0 in Some ((VSeq vs), r')
+        | None -> None)
+     | None -> None)
+  | TArr (n0, t') ->
+    (match dec_nat (decode t') n0 bs with
+     | Some p -> let (vs, r) = p in Some ((VSeq vs), r)
+     | None -> None)
+  | TOpt t' ->
+    (match bs with
+     | [] -> None
+     | b :: r ->
+       if N.eqb b N0
+       then Some ((VOpt None), r)
+       else if N.eqb b (Npos XH)
+            then (match decode t' r with
+                  | Some p -> let (v, r') = p in Some ((VOpt (Some v)), r')
+                  | None -> None)
+            else None)
+  | TTuple ts ->
+    (match let rec go ts0 bs0 =
+             match ts0 with
+             | [] -> Some ([], bs0)
+             | t1 :: ts' ->
+               (match decode t1 bs0 with
+                | Some p ->
+                  let (v, r) = p in
+                  (match go ts' r with
+                   | Some p0 -> let (vs, r') = p0 in Some ((v :: vs), r')
+                   | None -> None)
+                | None -> None)
+           in go ts bs with
+     | Some p -> let (vs, r) = p in Some ((VTuple vs), r)
+     | None -> None)
+  | TUnit -> Some (VUnit, bs)
